@@ -188,12 +188,12 @@ def render(n, env, toplevel=False):
         t = env.fresh_type()
         # names are unique per type so that unions of shaped selects stay legal
         el = [f'c{t}_{i} := ({render(x, env)})' for i, x in enumerate(Is)]
-        el += [f'l{t}_{i} := (distinct ({render(x, env)}))' for i, x in enumerate(Os)]
+        el += [f'l{t}_{i} := (distinct ({render(x, env)}))[is Base]' for i, x in enumerate(Os)]   # never a union type
         shape = (' { ' + ', '.join(el) + ' }') if el else ''
         return f'{w}select {t}{shape}' + _clauses(f, o, off, lim, env)
     if k == 'free':
         el = [f'a{i} := ({render(x, env)})' for i, x in enumerate(n[1])]
-        el += [f'b{i} := (distinct ({render(x, env)}))' for i, x in enumerate(n[2])]
+        el += [f'b{i} := (distinct ({render(x, env)}))[is Base]' for i, x in enumerate(n[2])]
         return '{ ' + ', '.join(el) + ' }'
     if k == 'forO':
         it = render(n[1], env)
